@@ -8,7 +8,13 @@ import pipelib as PL
 
 CTX_SELECT = ["--select=&index =i", "--select=&index-in-file =f", "--select=&started-at-line-number =sl", "--select=&started-at-char-number =sc",
               "--select=&ended-at-line-number =el", "--select=&Ended_At_Char_Number =ec", "--select=&file-name =fn", "--select=. =v"]
+# the same selectors evaluated on a derived context (behind a pipe, inside map): the input context belongs to the record, not to `.`
+CTX_SELECT_WRAPPED = ["--select=(| . &index) =i", "--select=(first (map [1] &index-in-file)) =f", "--select=(| 1 2 &started-at-line-number) =sl",
+                      "--select=(? true &started-at-char-number 0) =sc", "--select=(last (push [] &ended-at-line-number)) =el",
+                      "--select=(default .nope &Ended_At_Char_Number) =ec", "--select=(| . (concat &file-name \"\")) =fn", "--select=. =v"]
 WSEP = [b" ", b"\n", b"\n", b"\r\n", b"  ", b"\t", b" \n "]
+NAME_SETS = [["b.json", "a.json", "c.json", "0.json"], ["part8.json", "part9.json", "part10.json", "part11.json"], ["z/f.json", "a/f.json", "m.json", "a/e.json"],
+             ["x.json", "X.json", "_x.json", "-x.json"]]
 
 
 def clean_stream(rnd, n, touching=False):
@@ -105,15 +111,23 @@ def check(tier, seed, replay=None):
             mode = rnd.choice(["plain", "select", "fidx"])       # fidx: the per-file ordinal restarts in every file, however the previous one ended
             data = clean_stream(rnd, rnd.choice([2, 3, 5, 8]))
             parts = partitions(rnd, data, rnd.choice([1, 2, 3, 4]), cut_inside=rnd.random() < 0.5)
-            recipes.append({"kind": "files", "policy": policy, "mode": mode, "onlyObj": rnd.random() < 0.2, "parts": [hexs(p) for p in parts]})
+            recipes.append({"kind": "files", "policy": policy, "mode": mode, "onlyObj": rnd.random() < 0.2, "parts": [hexs(p) for p in parts],
+                            "names": rnd.choice(NAME_SETS)[:len(parts)] if rnd.random() < 0.5 else None})
         for i in range(n):
             only = rnd.random() < 0.3
             data = clean_stream(rnd, rnd.choice([1, 2, 3, 5, 8]))
             if rnd.random() < 0.5:
-                recipes.append({"kind": "ctx", "onlyObj": only, "srcs": [hexs(data)], "files": False})
+                recipes.append({"kind": "ctx", "onlyObj": only, "srcs": [hexs(data)], "files": False, "wrapped": rnd.random() < 0.3})
             else:
                 parts = [clean_stream(rnd, rnd.choice([0, 1, 2, 4])) for _ in range(rnd.choice([1, 2, 3]))]      # every file a clean stream of its own
-                recipes.append({"kind": "ctx", "onlyObj": only, "srcs": [hexs(p) for p in parts], "files": True})
+                recipes.append({"kind": "ctx", "onlyObj": only, "srcs": [hexs(p) for p in parts], "files": True, "wrapped": rnd.random() < 0.3})
+        for i in range(6 if quick else 200):
+            parts = [clean_stream(rnd, rnd.choice([1, 2, 3])) for _ in range(5)]
+            # files 0..2 live below top/ (one in a sub-directory), 3 and 4 outside; top/ has a link to file 3 and a link to the directory of file 4
+            names = ["top/a.json", "top/sub/b.json", "top/c.json", "outside/d.json", "other/e.json"]
+            links = [["top/ld.json", "outside/d.json"], ["top/lother", "other"]] if rnd.random() < 0.7 else []
+            recipes.append({"kind": "dir", "policy": "ignore", "parts": [hexs(p) for p in parts], "names": names, "links": links,
+                            "inside": [0, 1, 2] + ([3, 4] if links else [])})
         # witness of the known finding: two texts that touch
         recipes.append({"kind": "ctx", "onlyObj": False, "srcs": [hexs(b'""1 [1][2]\n')], "files": False, "witness": "touching-values-start"})
     # ---- build harness cases
@@ -136,11 +150,22 @@ def check(tier, seed, replay=None):
                 add(ri, {"argv": ["@FILE0"] + argv, "stdin": "", "files": [rc["stdin"]]})
         elif k == "files":
             argv = RL.argv_for(rc["policy"], rc["mode"], rc["onlyObj"])
-            add(ri, {"argv": ["@FILE%d" % j for j in range(len(rc["parts"]))] + argv, "stdin": "", "files": rc["parts"]})
+            c = {"argv": ["@FILE%d" % j for j in range(len(rc["parts"]))] + argv, "stdin": "", "files": rc["parts"]}
+            if rc.get("names"):
+                c["names"] = rc["names"]          # the files are read in the order they are given, whatever they are called
+            add(ri, c)
             for p in rc["parts"]:
                 add(ri, {"argv": ["@FILE0"] + argv, "stdin": "", "files": [p]})
+        elif k == "dir":
+            # a directory argument: every regular file below it (also through symbolic links) is read once; the order is the file system's
+            argv = RL.argv_for(rc["policy"], "plain", False)
+            add(ri, {"argv": ["@DIR/top"] + argv, "stdin": "", "files": rc["parts"], "names": rc["names"], "links": rc["links"]})
+            for j in rc["inside"]:
+                add(ri, {"argv": ["@FILE0"] + argv, "stdin": "", "files": [rc["parts"][j]]})
         elif k == "ctx":
-            argv = CTX_SELECT + (["--only-objects-and-arrays"] if rc["onlyObj"] else [])
+            argv = (CTX_SELECT_WRAPPED if rc.get("wrapped") else CTX_SELECT) + (["--only-objects-and-arrays"] if rc["onlyObj"] else [])
+            if rc.get("wrapped") and ri % 2 == 0:
+                argv = ["--split-by=(push [] .)"] + argv          # one element per record, the record itself: the selectors still describe the record
             if rc["files"]:
                 add(ri, {"argv": ["@FILE%d" % j for j in range(len(rc["srcs"]))] + argv, "stdin": "", "files": rc["srcs"]})
             else:
@@ -167,6 +192,10 @@ def check(tier, seed, replay=None):
                     rec["exact"] = False
         elif k == "files":
             rec = RL.base_record("files", rc["policy"], rc["mode"], rc["onlyObj"], [bytes.fromhex(p) for p in rc["parts"]], b"")
+            rec.update({"res": o[0]["res"], "out": list(bytes.fromhex(o[0]["out"])), "parts": [list(bytes.fromhex(x["out"])) for x in o[1:]]})
+        elif k == "dir":
+            rec = RL.base_record("dir", "ignore", "plain", False, None, b"")
+            rec["exact"] = False
             rec.update({"res": o[0]["res"], "out": list(bytes.fromhex(o[0]["out"])), "parts": [list(bytes.fromhex(x["out"])) for x in o[1:]]})
         else:
             rec = RL.base_record("ctx", "ignore", "ctx", rc["onlyObj"], None, b"")
